@@ -1378,6 +1378,8 @@ def C18(V, tier):
         V.add_model(r, cfg)
     r = tlc_check(f"{SPEC}/sys/Batching.tla", f"{SPEC}/mc/Batching_noarm.cfg", wd, "noarm", workers=2, coverage=False)
     V.coverage["no_rearm_variant_breaks_bounded_delay"] = r["invariant_violated"] == "BoundedDelay"
+    r = tlc_check(f"{SPEC}/sys/Batching.tla", f"{SPEC}/mc/Batching_seedC18b.cfg", wd, "seedC18b", workers=2, coverage=False)
+    V.coverage["blind_block_variant_breaks_bounded_delay"] = r["invariant_violated"] == "BoundedDelay"
     rng = random.Random(seed() + 18)
     jobs = latency_jobs(tier, rng)
     results, traces = run_jobs(jobs, wd, nproc=min(len(jobs), 12), timeout=600)
